@@ -222,9 +222,42 @@ def build_object(op, reg):
         else:
             vals = complex(vals[0], vals[1])
     if kind == "quantity":
-        return unyt.unyt_quantity(np.array(vals, dtype=op["dtype"])[()], op["unit"], registry=reg, name=op.get("name"))
-    return unyt.unyt_array(lay_out(np.array(vals, dtype=op["dtype"]), op.get("layout")), op["unit"], registry=reg,
-                           name=op.get("name"))
+        x = unyt.unyt_quantity(np.array(vals, dtype=op["dtype"])[()], op["unit"], registry=reg, name=op.get("name"))
+    else:
+        x = unyt.unyt_array(lay_out(np.array(vals, dtype=op["dtype"]), op.get("layout")), op["unit"], registry=reg,
+                            name=op.get("name"))
+    return derive(x, op.get("derive"))
+
+
+DERIVED = ["ratio", "in_base", "sqrt_sq", "muldiv", "double"]
+
+
+def derive(x, how):
+    """Objects whose unit was PRODUCED BY ARITHMETIC, not parsed from a string: what is persisted in practice is mostly
+    this kind (ratios, sums, results of conversions).  Their unit objects differ from parsed ones in representation -
+    expression `1` for a ratio, units handed out by a unit system - and must survive all the same."""
+    if not how:
+        return x
+    unyt, uo, ur = _m()
+    try:
+        with warnings.catch_warnings():
+            warnings.simplefilter("ignore")
+            if how == "ratio":
+                return x / unyt.unyt_quantity(1.0, x.units)
+            if how == "in_base":
+                return x.in_base()
+            if how == "sqrt_sq":
+                return np.sqrt(x * x)
+            if how == "muldiv":
+                q = unyt.unyt_quantity(2.0, x.units)
+                return (x * q) / q
+            if how == "double":
+                return x + x
+    except Exception as e:  # noqa: BLE001 - a refusal of the arithmetic is not this property's business
+        if rw.harness_frame(e.__traceback__):
+            raise
+        return x
+    raise HarnessError(how)
 
 
 LAYOUTS = ["col", "2d", "2dF", "T", "strided", "rev", "0d", "empty", "readonly", "view_of_big"]
@@ -592,6 +625,16 @@ def gen_run(r, cfg):
              "name": r.choice([None, "field"]), "prehash": r.random() < 0.3}
     if kind == "array" and route != "savetxt" and r.random() < 0.3:
         build["layout"] = r.choice(LAYOUTS)
+    if kind != "unit" and route != "savetxt" and guard in ("plain", "compound", "custom") and not dtype.startswith(">") \
+            and r.random() < 0.25:
+        how = r.choice(DERIVED)
+        if how == "ratio" and route in ("str", "repr", "json", "regdeepcopy"):
+            # the text routes carry the NAME of the unit, and the name of the unit of a ratio ("dimensionless") denotes
+            # the symbol of that name: an equal unit in another representation, by construction of str()
+            how = "in_base"
+        build["derive"] = how
+        if how == "ratio":
+            unit, dim = "dimensionless", "none"
     if route == "savetxt":
         build["kind"] = "array"
         build["v"] = gen_values(r, dtype, n, guard)
@@ -841,6 +884,8 @@ class Sim11:
         self.count("build:" + build["kind"])
         if build.get("layout"):
             self.count("layout:" + build["layout"])
+        if build.get("derive"):
+            self.count("derived:" + build["derive"])
         if build.get("prehash"):
             # the unit is hashed (as any memoised unit rule does) BEFORE the registry is edited further
             hash(obj if isinstance(obj, uo.Unit) else obj.units)
@@ -860,6 +905,15 @@ class Sim11:
         if route == "savetxt":
             self.do_savetxt(orig, build, rt, follows, before)
             return
+        TEXT = ("str", "repr", "json", "regdeepcopy")
+        if getattr(obj.units if hasattr(obj, "units") else obj, "expr", None) == 1:
+            # the unit of a ratio: its expression is `1`, its NAME is "dimensionless", and that name denotes the symbol
+            # of that name - an equal unit in another representation.  Routes that carry the name cannot carry the
+            # representation, by construction of str(); counted, not judged (the in-memory and pickle routes are judged)
+            if route in TEXT:
+                self.count("text_route_unit_of_ratio_not_judged")
+                return
+            ops = [o for o in ops if not (o["k"] == "gen2" and o["route"] in TEXT)]
         # ---- dump
         try:
             payload = persist(obj, reg, rt, None)
